@@ -246,9 +246,42 @@ def scripted():
     return []
 
 
+def worker_thread_scope():
+    """A scope whose creation fails (a worker thread - asyncio.to_thread / run_in_executor - inherits the caller's context,
+    hence its current scope, but has no event loop) must leave the scope it was created under untouched: that scope still
+    completes, exactly once, and leaving it does not fail."""
+    fired = []
+    state = {}
+
+    async def main():
+        def worker():
+            try:
+                with ctx.scope("worker"):
+                    return "entered"
+            except RuntimeError as exc:
+                return f"refused: {exc}"
+        try:
+            async with ctx.scope("parent", completion=lambda m: fired.append(m.is_completed)):
+                state["worker"] = await asyncio.to_thread(worker)
+        except BaseException as exc:  # noqa
+            state["leave"] = repr(exc)
+        await asyncio.sleep(0)
+        await asyncio.sleep(0)
+    import warnings
+    with warnings.catch_warnings():
+        warnings.simplefilter("ignore")
+        asyncio.run(main())
+    if "leave" in state:
+        return [f"leaving a scope under which a worker thread failed to create a scope ({state.get('worker')}) raised {state['leave']}"]
+    if fired != [True]:
+        return [f"a worker thread failed to create a scope under `parent` ({state.get('worker')}); parent's completion fired "
+                f"{len(fired)} times with is_completed={fired}"]
+    return []
+
+
 def main():
     sys.stdin.read()
-    sp = scripted()
+    sp = scripted() or worker_thread_scope()
     if sp:
         print(json.dumps(dict(reproduced=True, detail=dict(problem=sp[0], scenario="scripted"), cases_tried=1), default=str))
         return
